@@ -718,12 +718,16 @@ func (e *c18Env) curve(q c18Params, nRandom int) {
 		if d := new(big.Rat).Sub(wantU, new(big.Rat).SetInt(r.util.BigInt())); d.Abs(d).Cmp(big.NewRat(1, 1)) <= 0 {
 			e.rec.Count("rates/utilisation_as_driven", 1)
 		} else {
+			// "pool utilisation" is debt / (cash + debt) with debt = variable + stable principal: the driver set exactly
+			// these three numbers, so the utilisation the chain derives its rates from must be that quotient (one unit
+			// of the 18th decimal for the truncated division)
 			e.rec.Count("rates/utilisation_differs_from_driver", 1)
+			e.rec.Violate("C18/utilisation/not-debt-over-cash-plus-debt", fmt.Sprintf("debt %s (of which stable %s), cash %s: utilisation %s reported, %s expected", pt.B, stable, pt.M, r.util, new(big.Rat).Quo(wantU, new(big.Rat).SetInt(c18E18)).FloatString(18)), e.rateWit(q, pt, r))
 		}
 		if r.util.IsNegative() || r.util.GT(sdk.OneDec()) {
-			e.rec.Count("rates/utilisation_outside_unit_interval", 1) // outside the quantified domain: no law applies
-			prev = nil
-			continue
+			// the pool's true utilisation is inside [0,1] (the driver's numbers are non-negative): the rate laws below
+			// still apply to what the chain publishes for this pool state
+			e.rec.Count("rates/utilisation_outside_unit_interval", 1)
 		}
 		// base rate at zero utilisation
 		if r.util.IsZero() {
